@@ -275,11 +275,14 @@ def readback (t : Table) (c : Conf) (n : String) : Val :=
 def warnSet (t : Table) (c : Conf) : Bool :=
   (lookupKw (kwargsOf t c) "warning_cls_on_decorator_exception").getD .none != t.warnDefault
 
-/-- option names listed by `__repr__`: those whose `kwargs` value `!=` the default configuration's -/
+/-- option names listed by `__repr__`: those whose `kwargs` value `!=` that of the default
+    configuration (whose key is `d`) -/
+def reprNamesOf (t : Table) (d : List Val) (c : Conf) : List String :=
+  ((t.opts.map (·.name)).zip (c.key.zip d)).filterMap (fun p => if pyEq p.2.1 p.2.2 then none else some p.1)
+
 def reprNames (t : Table) (c : Conf) : List String :=
   match normalize t none [] with
-  | .ok d => ((t.opts.map (·.name)).zip (c.key.zip d)).filterMap
-      (fun p => if pyEq p.2.1 p.2.2 then none else some p.1)
+  | .ok d => reprNamesOf t d c
   | .error _ => []
 
 /-! ## Histories -/
